@@ -162,16 +162,27 @@ def run(tier, seed, drv):
         if r["bad"]:
             fb = r["first_bad"]
             viol.append({"engine": "arraymacro", "func": names[r["id"]].split("(")[0], "replay": f"prog|{r['id']}", "case": (names[r["id"]] + ": " + fb["case"]) if r.get("crash") else fb["case"], "expected": fb["std"], "observed": fb["konst"], "class": "mismatch"})
+    # collect_const! = Iterator::collect for chains in which the iteration direction has to reach every adapter
+    import gen_c10
+    dchains = gen_c10.direction_chains(tier)
+    cviol, citems, cmach, cknown = gen_c10.const_family("C11K", dchains)
+    rep["machinery_errors"] += cmach
+    if cmach:
+        return rep
+    for v in cviol:
+        v["engine"] = "arraymacro"
+    viol += cviol
+    evals += citems
     rep["violations"] = viol
     rep["violations_total"] = len(viol)
     rep["overflow_classified"] = True
-    rep["states"] = len(allp)
+    rep["states"] = len(allp) + len(dchains)
     rep["transitions"] = evals + len(rejected)
     rep["traces"] = evals
     rep["evaluations"] = evals + len(rejected)
     rep["distinct_nontrivial"] = sum(1 for h in hostile.values() if h)
     rep["rule"] = "program = one array macro invocation (map!, map_!, from_fn!, from_fn_!, collect_const!) x length x parameter form x closure behaviour (well-behaved, or an early exit - break, continue, return, ?, labelled break/continue to an enclosing loop, panic! - at element k for every k); each sits in its own function returning Result so that non-local exits have somewhere legal to go; outcome classes: rejected by rustc | panics | does not terminate (5000-entry guard) | leaves the function/labelled block | yields an array; well-behaved programs must yield std's array, hostile ones must not yield an array at all (collect_const!: only produced values); non-trivial = hostile programs"
-    rep["bounds"] = f"lengths 0..={dict(quick=3, thorough=4)[tier]}; element types u8, (u8,u16), &str, String; forms |x|, |x: T|, |x| -> T, |ref x|, |(a,b)|, function path, typed from_fn; {len(allp)} programs"
+    rep["bounds"] = f"lengths 0..={dict(quick=3, thorough=4)[tier]}; element types u8, (u8,u16), &str, String; forms |x|, |x: T|, |x| -> T, |ref x|, |(a,b)|, function path, typed from_fn; {len(allp)} programs; collect_const! = Iterator::collect on {len(dchains)} adapter chains (all chains of <= 2 direction-sensitive adapters and every {dict(quick=3, thorough=4)[tier]}-chain over rev/zip/flat_map/take/enumerate/skip containing rev(), sources slice / a..b / a..=b) x {len(gen_c10.CONST_INPUTS)} const inputs, evaluated by rustc's const evaluator"
     rep["samples"] = [names[0], names[len(names) // 3], names[len(names) // 2], names[len(names) - 1]]
-    rep["extra"] = {"programs": len(allp), "rejected_by_rustc": len(rejected), "hostile_rejected_by_rustc": rej_hostile, "disagreements_checked": len(viol)}
+    rep["extra"] = {"collect_const_chain_items": citems, "collect_const_f7_shaped_known": cknown, "programs": len(allp), "rejected_by_rustc": len(rejected), "hostile_rejected_by_rustc": rej_hostile, "disagreements_checked": len(viol)}
     return rep
